@@ -35,6 +35,9 @@ CLAIMED = {
  "C09": dict(level="exploration", tech="structure-aware generation of hostile inputs (adversarial protobuf messages properly signed by the reference signer, mutated valid encodings, random bytes, operand grids) swept over every parsing entry point and every accessor in crash-isolated child processes with a watchdog",
    text="28 k (quick) / 400 k (thorough) generated inputs - signed adversarial and edited blocks in authority / first-party / third-party position, mutated and random token bytes and base64, adversarial and edited snapshots, policies, third-party requests and blocks, key strings / bytes / PEM / DER, Datalog text, plus an exhaustive grid of operators over extreme integers - go to every entry point that accepts them; every object obtained is swept (all block indices including out-of-range, print, seal, append, third party, authorizer build / run / authorize / query / dump / snapshot / restore). No panic (caught and attributed), no abort or stack overflow (child death), no hang (30 s watchdog, reproduced twice).",
    note="'hang' means 30 s without an answer under limits of 200 ms / 20 iterations / 500 facts; memory exhaustion would show as child death; a non-reproducible watchdog expiry is reported as inconclusive (exit 2)", ref="4 C09"),
+ "C19": dict(level="exploration", tech="stateful property-based testing: generated call sequences over a handle table interpreted in crash-isolated child processes, every extern \"C\" call mirrored by the Rust operation on a twin object (model-based differential oracle), canary-guarded buffers",
+   text="48 k (quick) / 1 M (thorough) sequences of up to 35 calls over 33 operations and 7 handle kinds (keys of both algorithms, three builders with valid / invalid / non-UTF-8 text, build, parse of valid / mutated / sealed / random bytes, size queries + serialization plain and sealed, block accessors with indices past the end, append, authorizers, authorize, print, the error_* family with any index, frees, NULL handles). After every call: same success, bytes, strings, sizes as the Rust API; error kind, message and failed-check details equal for all indices; written == announced; canaries intact; the child process is alive.",
+   note="the functions are called as Rust symbols of the rlib (the cbindgen header and the C ABI of the cdylib are not exercised); undefined-behaviour arguments (invalid enum values, dangling handles) are not generated", ref="4 C19"),
  "C10": dict(level="exploration", tech="property-based testing of call histories over program families with model-known cost, limits drawn from boundary sets, invariants checked after every call under a virtual clock (hook)",
    text="Seven program families (chain, exponential join, expensive iteration / non-productive iteration / check / query, ticking chain) whose iteration, fact and tick cost is computed by the reference fixpoint are run under limit triples around that cost and call histories of length 1-4 (run/authorize/query/query_all/query_exactly_one), in an authorizer or in a token. After every call: no panic; success implies iterations, facts and virtual time within budget; a program needing more than a budget never succeeds; limit errors are prompt (8 ticks, 2x facts + 64); budgets are cumulative.",
    note="time is a per-thread virtual clock advanced by an extern function (hook H1, guarded); promptness allowances are stated constants; real-time behaviour under load is not measured", ref="4 C10"),
